@@ -109,7 +109,7 @@ structure State where
   returned : List Nat
   /-- values returned by the API calls, in order -/
   rets : List Ret
-deriving Repr
+deriving Repr, DecidableEq
 
 /-- state after `thread_pool_create(n, cb)` (and every worker having reached its first lock) -/
 def init (n : Nat) : State :=
